@@ -22,6 +22,7 @@ subscript forks on "raises <handler type>" for each handler.
 from __future__ import annotations
 
 import ast
+import re
 from dataclasses import dataclass, field
 
 from .model import AnalysisError, u
@@ -394,9 +395,19 @@ class Evaluator:
     def loop(self, s, st):
         k = self.hooks.unroll
         if isinstance(s, ast.For):
+            d = _desugar_filtered_loop(s)
+            if d is not None:
+                s = d
             it = self.ev(s.iter, st)
             ittext = vtext(it)
             concrete = it if isinstance(it, (list, tuple)) else None
+            # a loop over d.values() / d.keys() visits the entries of d.items(): denote its items that way
+            part = None
+            if concrete is None and isinstance(s.iter, ast.Call) and isinstance(s.iter.func, ast.Attribute) and not s.iter.args and s.iter.func.attr in ("values", "keys"):
+                mm = re.fullmatch(r"(.*)\.(values|keys)\(\)([#@]\d+)?", ittext)
+                if mm:
+                    part = 1 if mm.group(2) == "values" else 0
+                    ittext = f"{mm.group(1)}.items(){mm.group(3) or ''}"
             st.counter += 1
             lid = f"{ittext}#L{st.counter}"
             i = 0
@@ -429,6 +440,8 @@ class Evaluator:
                     if not st.atom(f"more({lid},{i})"):
                         break
                     item = Sym(f"{ittext}[{i}]", tag=("item", ittext, i))
+                    if part is not None:
+                        item = Sym(f"{ittext}[{i}][{part}]", tag=("item", ittext, i))
                 self.assign(s.target, item, st)
                 try:
                     self.block(s.body, st)
@@ -532,12 +545,68 @@ class Evaluator:
                 return st.mem[tt].text  # the location was assigned a symbolic value: denote it by that value
             return tt
         if isinstance(e, ast.Subscript):
-            sv = self.ev(e.slice, st) if not isinstance(e.slice, ast.Slice) else Sym(u(e.slice))
+            sv = self.ev(e.slice, st)
             return f"{self.subst_text(e.value, st)}[{vtext(sv)}]"
         if isinstance(e, ast.Call):
             v = self.ev(e, st)
             return vtext(v)
         return u(e)
+
+    def closure_text(self, e, st):
+        """text of a comprehension / lambda / display with its free local names replaced by the
+        values they hold on this path (so that a changed operand is visible in the text)"""
+        bound = set()
+        for n in ast.walk(e):
+            if isinstance(n, ast.comprehension):
+                bound |= {x.id for x in ast.walk(n.target) if isinstance(x, ast.Name)}
+            elif isinstance(n, ast.Lambda):
+                a = n.args
+                bound |= {x.arg for x in a.args + a.kwonlyargs + a.posonlyargs}
+                bound |= {x.arg for x in (a.vararg, a.kwarg) if x is not None}
+            elif isinstance(n, ast.NamedExpr):
+                bound.add(n.target.id)
+        free = {n.id for n in ast.walk(e) if isinstance(n, ast.Name) and isinstance(n.ctx, ast.Load)} - bound
+        m = {}
+        for name in free:
+            v = st.env.get(name, NOTHING)
+            if v is NOTHING:
+                continue
+            t = vtext(v)
+            if t != name and len(t) < 400:
+                m[name] = t
+        # bound names are denoted positionally (renaming a comprehension variable changes nothing)
+        order = []
+        for n in ast.walk(e):
+            if isinstance(n, ast.comprehension):
+                for x in ast.walk(n.target):
+                    if isinstance(x, ast.Name) and x.id not in order:
+                        order.append(x.id)
+            elif isinstance(n, ast.Lambda):
+                for x in n.args.posonlyargs + n.args.args + n.args.kwonlyargs:
+                    if x.arg not in order:
+                        order.append(x.arg)
+        for i, name in enumerate(order):
+            m[name] = f"_c{i}"
+        if not m and not st.mem:
+            return u(e)
+        import copy
+
+        e2 = _Rename(m).visit(copy.deepcopy(e))
+
+        class _Mem(ast.NodeTransformer):
+            def visit_Attribute(self_, n):
+                self_.generic_visit(n)
+                v = st.mem.get(u(n))
+                if isinstance(n.ctx, ast.Load) and isinstance(v, Sym) and len(v.text) < 400:
+                    return ast.copy_location(ast.Name(id=v.text, ctx=ast.Load()), n)
+                return n
+
+        if st.mem:
+            e2 = _Mem().visit(e2)
+        for n in ast.walk(e2):
+            if isinstance(n, ast.arg) and n.arg in m:
+                n.arg = m[n.arg]
+        return u(e2)
 
     def ev(self, e, st):
         r = self.hooks.resolve(e, st)
@@ -615,6 +684,11 @@ class Evaluator:
                     return _binop(e.op, l, r_)
                 except Exception:
                     pass
+            if isinstance(e.op, ast.Mult):
+                # [c] * len(X) == [c for _ in X]
+                for a, b in ((l, r_), (r_, l)):
+                    if isinstance(a, list) and len(a) == 1 and not isinstance(a[0], (Sym, list, tuple, dict)) and isinstance(b, Sym) and b.tag and b.tag[0] == "call" and b.tag[1] == "len" and len(b.tag[2]) == 1:
+                        return Sym(f"comp:[{a[0]!r} for _c0 in {vtext(b.tag[2][0])}]")
             return Sym(f"({vtext(l)} {type(e.op).__name__} {vtext(r_)})", tag=("binop", type(e.op).__name__, l, r_))
         if isinstance(e, ast.JoinedStr):
             parts = []
@@ -625,17 +699,19 @@ class Evaluator:
                     parts.append("{" + vtext(self.ev(v.value, st)) + "}")
             return Sym("f'" + "".join(parts) + "'", tag=("fstring", e))
         if isinstance(e, ast.Lambda):
-            return Sym("lambda:" + u(e))
+            return Sym("lambda:" + self.closure_text(e, st))
         if isinstance(e, (ast.ListComp, ast.SetComp, ast.GeneratorExp, ast.DictComp)):
-            return Sym("comp:" + u(e), tag=("comp", e))
+            return Sym("comp:" + self.closure_text(e, st), tag=("comp", e))
         if isinstance(e, ast.Dict):
-            return Sym("dict:" + u(e))
+            return Sym("dict:" + self.closure_text(e, st))
         if isinstance(e, ast.Set):
-            return Sym("set:" + u(e))
+            return Sym("set:" + self.closure_text(e, st))
         if isinstance(e, ast.Starred):
             return Sym("*" + vtext(self.ev(e.value, st)))
         if isinstance(e, ast.Slice):
-            return Sym(u(e))
+            parts = [vtext(self.ev(x, st)) if x is not None else "" for x in (e.lower, e.upper)]
+            txt = ":".join(parts) + (":" + vtext(self.ev(e.step, st)) if e.step is not None else "")
+            return Sym(txt)
         if isinstance(e, ast.NamedExpr):
             v = self.ev(e.value, st)
             self.assign(e.target, v, st)
@@ -660,6 +736,26 @@ class Evaluator:
         r = self.hooks.on_call(c, ftext, args, kwargs, st)
         if r is not NOTHING:
             return r
+        if ftext == "list" and len(c.args) == 1 and not kwargs:
+            a0 = c.args[0]
+            if isinstance(a0, ast.GeneratorExp):
+                # list(<genexp>) == [<listcomp>]
+                lc = ast.ListComp(elt=a0.elt, generators=a0.generators)
+                return Sym("comp:" + self.closure_text(ast.copy_location(lc, a0), st), tag=("comp", lc))
+            if isinstance(a0, ast.Call) and u(a0.func) == "filter" and len(a0.args) == 2 and not a0.keywords:
+                # list(filter(None, X)) == [x for x in X if x] ; list(filter(lambda v: P, X)) == [v for v in X if P]
+                pred, src = a0.args
+                srct = vtext(self.ev(src, st))
+                if isinstance(pred, ast.Constant) and pred.value is None:
+                    return Sym(f"comp:[_c0 for _c0 in {srct} if _c0]")
+                if isinstance(pred, ast.Lambda) and len(pred.args.args) == 1:
+                    v = pred.args.args[0].arg
+                    lc = ast.ListComp(
+                        elt=ast.Name(id=v, ctx=ast.Load()),
+                        generators=[ast.comprehension(target=ast.Name(id=v, ctx=ast.Store()), iter=src, ifs=[pred.body], is_async=0)],
+                    )
+                    ast.fix_missing_locations(ast.copy_location(lc, a0))
+                    return Sym("comp:" + self.closure_text(lc, st), tag=("comp", lc))
         if ftext == "isinstance" and len(args) == 2 and isinstance(args[1], tuple) and not kwargs:
             # isinstance(x, (A, B)) == isinstance(x, A) or isinstance(x, B)
             for t in args[1]:
@@ -694,7 +790,6 @@ class Evaluator:
                         st.effect("store", tt, args[1])
                     st.bump(_base(recv))
                     st.mem[tt] = args[1]
-                    return args[1]
                 return Sym(st.vkey(tt))
         if ftext == "next" and len(c.args) in (1, 2) and isinstance(c.args[0], ast.GeneratorExp) and len(c.args[0].generators) == 1:
             # next((elt for x in S if P(x)), default)  ==  first-match loop
@@ -877,6 +972,59 @@ class Evaluator:
             pass
         val = st.atom(f"{lt} {name} {rt}")
         return (not val) if neg else val
+
+
+_DESUGARED: dict = {}
+
+
+class _Rename(ast.NodeTransformer):
+    def __init__(self, m):
+        self.m = m
+
+    def visit_Name(self, n):
+        if n.id in self.m:
+            return ast.copy_location(ast.Name(id=self.m[n.id], ctx=n.ctx), n)
+        return n
+
+
+def _desugar_filtered_loop(s: ast.For):
+    """`for x in [e(n) for n in it if c(n)]: B`  and  `for x in filter(lambda n: c(n), it): B`
+    are the loop `for n in it: if c(n): x = e(n); B` (same visits, same order).  Only single-generator
+    comprehensions; comprehension variables get fresh names so that they cannot capture locals."""
+    if id(s) in _DESUGARED:
+        return _DESUGARED[id(s)][1]
+    import copy
+
+    it = s.iter
+    out = None
+    target = elt = src = None
+    ifs = []
+    if isinstance(it, (ast.ListComp, ast.GeneratorExp)) and len(it.generators) == 1 and not it.generators[0].is_async:
+        g = it.generators[0]
+        target, elt, src, ifs = g.target, it.elt, g.iter, list(g.ifs)
+    elif isinstance(it, ast.Call) and u(it.func) == "filter" and len(it.args) == 2 and isinstance(it.args[0], ast.Lambda) and len(it.args[0].args.args) == 1 and not it.keywords:
+        lam = it.args[0]
+        target = ast.Name(id=lam.args.args[0].arg, ctx=ast.Store())
+        elt = ast.Name(id=lam.args.args[0].arg, ctx=ast.Load())
+        src, ifs = it.args[1], [lam.body]
+    if target is not None and any(isinstance(n, (ast.Lambda, ast.ListComp, ast.GeneratorExp, ast.SetComp, ast.DictComp, ast.NamedExpr)) for x in [elt, *ifs] for n in ast.walk(x)):
+        target = None
+    if target is not None:
+        names = {n.id for n in ast.walk(target) if isinstance(n, ast.Name)}
+        m = {n: f"_cv_{n}" for n in names}
+        ren = _Rename(m)
+        t2 = ren.visit(copy.deepcopy(target))
+        e2 = ren.visit(copy.deepcopy(elt))
+        i2 = [ren.visit(copy.deepcopy(c)) for c in ifs]
+        bind = ast.Assign(targets=[copy.deepcopy(s.target)], value=e2, lineno=s.lineno, col_offset=s.col_offset)
+        body = [bind] + list(s.body)
+        if i2:
+            test = i2[0] if len(i2) == 1 else ast.BoolOp(op=ast.And(), values=i2)
+            body = [ast.If(test=test, body=body, orelse=[], lineno=s.lineno, col_offset=s.col_offset)]
+        out = ast.For(target=t2, iter=src, body=body, orelse=s.orelse, lineno=s.lineno, col_offset=s.col_offset)
+        ast.fix_missing_locations(out)
+    _DESUGARED[id(s)] = (s, out)
+    return out
 
 
 def _has_sym(v):
